@@ -66,6 +66,9 @@ class URI(object):
             self._parseLocation(location, None)
         elif self.protocol == "PYROMETA":
             self.object = set(m.strip() for m in self.object.split(","))
+            self.object.discard("")
+            if not self.object:
+                raise errors.PyroError("invalid uri (metadata)")
             self._parseLocation(location, config.NS_PORT)
         else:
             raise errors.PyroError("invalid uri (protocol)")
